@@ -94,6 +94,85 @@ def _row_slice(t: T):
     return t, None
 
 
+_UME_SUMMARY = {}
+_NEG = {"Eq": "NotEq", "NotEq": "Eq", "Is": "IsNot", "IsNot": "Is"}
+
+
+def _world(n_atom: T, v: bool):
+    """the configuration's assumption on the test of n against its marker,
+    for the atom itself and for its spelled-out complement (n != -1)"""
+    def w(t: T):
+        if t is n_atom:
+            return v
+        if n_atom.op == "cmp" and t.op == "cmp" and \
+                {t.args[1], t.args[2]} == {n_atom.args[1], n_atom.args[2]} \
+                and t.args[0] in _NEG:
+            if t.args[0] == n_atom.args[0]:
+                return v
+            if _NEG[t.args[0]] == n_atom.args[0]:
+                return not v
+        return None
+    return w
+
+
+def _effective_points(prog, e, npar: T, world=None) -> dict:
+    """the point sets the Umeyama step really works on: where the algorithm
+    gained a parameter that restricts its inputs itself (n / num_points ...),
+    the re-bound x and y of umeyama_alignment are expressed through the
+    call's arguments and written in the spelling of the pinned call
+    (positions[:n, :].T). A restriction along the *rows* of the 3 x n matrix
+    (coordinates instead of points) is marked as such."""
+    b = dict(e.data["bound"] or {})
+    tgt = e.data.get("target")
+    if tgt is None or set(b) <= {"x", "y", "with_scale"}:
+        return b
+    key = (id(prog), tgt.qualname)
+    if key not in _UME_SUMMARY:
+        r = Interp(prog).run(tgt)
+        _UME_SUMMARY[key] = (r.env.get(tgt.params[0]),
+                             r.env.get(tgt.params[1]))
+    import ast as _ast
+    defaults = tgt.defaults()
+    vals = {}
+    for p_ in tgt.params:
+        if p_ in b:
+            vals[tm.param(p_)] = b[p_]
+        elif p_ in defaults and isinstance(defaults[p_], _ast.Constant):
+            vals[tm.param(p_)] = const(defaults[p_].value)
+    ALL_ = T("slice", tm.NONE, tm.NONE, tm.NONE)
+
+    def settle(t: T) -> T:
+        t = t.map(lambda x_: vals.get(x_))
+
+        def known(a_: T):
+            if a_.op == "cmp" and a_.args[0] in ("Is", "IsNot") and \
+                    a_.args[2] is tm.NONE:
+                if a_.args[1] is tm.NONE:
+                    return a_.args[0] == "Is"
+                if a_.args[1] is npar or (tm.is_const(a_.args[1]) and
+                                          a_.args[1] is not tm.NONE):
+                    return a_.args[0] == "IsNot"
+            return world(a_) if world is not None else None
+        t = tm.deep_select(t, known)
+        # (P.T)[:, :n]  ->  P[:n, :].T   (columns of the 3 x n matrix are
+        # the points);  (P.T)[:n]  ->  marked: rows are coordinates
+        if t.op == "sub":
+            inner = _strip_T(t.args[0])
+            idx = t.args[1]
+            if inner is not None and idx.op == "tuple" and \
+                    len(idx.args) == 2 and idx.args[0] is ALL_ and \
+                    idx.args[1].op == "slice":
+                return tm.attr(tm.sub(inner, T("tuple", idx.args[1], ALL_)),
+                               "T")
+            if inner is not None and idx.op == "slice":
+                return T("coordinate-slice", t)
+        return t
+    for k, summ in zip(("x", "y"), _UME_SUMMARY[key]):
+        if summ is not None and k in b:
+            b[k] = settle(summ)
+    return b
+
+
 def check(ctx):
     prog = ctx.prog
     fa = prog.func(ALIGN)
@@ -109,7 +188,7 @@ def check(ctx):
     for e in base.events:
         cands.extend(tm.atoms(e.live))
     for e in base.calls(UME):
-        for v in (e.data["bound"] or {}).values():
+        for v in _effective_points(prog, e, npar).values():
             for x in v.walk():
                 if x.op == "ite":
                     cands.extend(tm.atoms(x.args[0]))
@@ -137,7 +216,8 @@ def check(ctx):
             else "?")
         ums = [e for e in base.calls(UME) if not tm.is_const(e.live, False)]
         sliced = bool(ums) and all(
-            _row_slice(_strip_T(e.data["bound"][k]))[1] is npar
+            (lambda v_: v_ is not None and _row_slice(v_)[1] is npar)(
+                _strip_T(_effective_points(prog, e, npar)[k]))
             for e in ums for k in ("x", "y") if e.data["bound"].get(k))
         if sliced and isinstance(dv, int) and not isinstance(dv, bool) \
                 and dv < 0:
@@ -163,8 +243,7 @@ def check(ctx):
             cfg = dict(extra, correct_scale=const(cs),
                        correct_only_scale=const(cos))
             av = n_all if n_all_true else not n_all
-            it = Interp(prog, assume=lambda t, v=av: v if t is n_atom
-                        else None)
+            it = Interp(prog, assume=_world(n_atom, av))
             r = it.run(fa, cfg)
             ctx.analysed["configs"] += 1
             mode = f"correct_scale={cs},only_scale={cos},n" \
@@ -178,7 +257,9 @@ def check(ctx):
                 from ..lib import comparisons
                 cnt = tm.attr(selfp, "num_poses")
                 for e in um_all:
-                    bb = e.data["bound"]
+                    bb = _effective_points(
+                        prog, e, npar,
+                        _world(n_atom, av))
                     xs_ = _strip_T(bb.get("x")) if bb.get("x") else None
                     ys_ = _strip_T(bb.get("y")) if bb.get("y") else None
                     xn_ = _row_slice(xs_)[1] if xs_ is not None else None
@@ -198,8 +279,20 @@ def check(ctx):
                            key="C04.2:first-n")
                 continue
             um = um_all
-            b = um[0].data["bound"]
+            b = _effective_points(
+                prog, um[0], npar,
+                _world(n_atom, av))
             x, y, ws = b.get("x"), b.get("y"), b.get("with_scale")
+            coord = [v_ for v_ in (x, y) if v_ is not None and
+                     v_.op == "coordinate-slice"]
+            if coord:
+                ctx.ob("C04.2", um[0], False,
+                       f"align[{mode}]: the restriction to the first n is "
+                       f"applied to {fmt(coord[0].args[0])[:80]} — the rows "
+                       f"of the 3 x n point matrix are the coordinates, so "
+                       f"for n >= 3 all poses are used (and for n < 3 "
+                       f"coordinates are dropped)", key="C04.2:first-n")
+                continue
             xs, ys = _strip_T(x) if x else None, _strip_T(y) if y else None
             xb, xn = _row_slice(xs) if xs is not None else (None, None)
             yb, yn = _row_slice(ys) if ys is not None else (None, None)
